@@ -4,7 +4,7 @@
    the coordinate is stored. *)
 From Coq Require Import ZArith List Bool Lia ZifyBool.
 From FT Require Import Model.Base Model.Obs Model.C16Metrics Model.C16Nest Model.C16Check
-                       Proofs.C16AndP Proofs.C16PopP.
+                       Proofs.C16AndP Proofs.C16EagerP Proofs.C16PopP.
 Import ListNotations.
 Open Scope Z_scope.
 
@@ -450,4 +450,93 @@ Proof.
   destruct (pop_loop_noins r la lb rt wt bt zl cm ip body els 0 st ls ltac:(lia) Hs eq_refl eq_refl Hst Hpre)
     as (H1 & _ & H3 & H4).
   split; [exact H1|]. split; [exact H3|exact H4].
+Qed.
+
+(* ---- the same at the level: against the oracle's expect_at ---- *)
+Lemma all_gt_inc : forall c es, all_gt c es -> ssorted_f es -> inc_from c (map fst es).
+Proof.
+  intros c es. revert c. induction es as [|[c' t'] es IH]; intros c Hg Hs; cbn; auto.
+  destruct Hg as [H1 H2]. destruct Hs as [Hs1 Hs2]. split; auto.
+Qed.
+
+Lemma flat_map_map' : forall {A B C} (f : A -> B) (g : B -> list C) l,
+  flat_map g (map f l) = flat_map (fun a => g (f a)) l.
+Proof. intros. induction l as [|a l IH]; cbn; [|rewrite IH]; reflexivity. Qed.
+
+Lemma map_flat_map' : forall {A B C} (f : B -> C) (g : A -> list B) l,
+  map f (flat_map g l) = flat_map (fun a => map f (g a)) l.
+Proof. intros. induction l as [|a l IH]; cbn; [|rewrite map_app, IH]; reflexivity. Qed.
+
+Definition el_ce (el : list mev * (Z * env)) : Z * env := (fst (snd el), snd (snd el)).
+
+(* a populate level over an abstract source stream whose elements are the reference elements of
+   the level, in ascending coordinate order: when the traversal does not insert
+   (Check.appending), the rows of populate_read / populate_write are, below point pt, the
+   oracle's expect_at lists against the fiber before (zes) and after (zf) *)
+Theorem pop_level_dest_rows : forall (L : level) e els zes pt r la lb rt wt bt zl ip (body : body_t) ls oe isp,
+  l_pop L = true ->
+  map el_ce els = ref_elems L e ->
+  match map fst (ref_elems L e) with [] => True | c0 :: cs => inc_from c0 cs end ->
+  Forall (fun el => kuses K_RD la (fst el) = []) els ->
+  ssorted_f zes -> appending L zes e = true ->
+  let st := {| p_z := zes; p_apos := 0; p_ins := false; p_oldend := oe; p_toins := []; p_isp := isp |} in
+  let res := pop_loop r la lb rt wt bt zl (negb (l_zufmt L)) ip body els 0 st ls in
+  let zf := p_z (fst (snd res)) in
+  let rows := map (fun cp : Z * Z => addr pt (fst cp) (Some (snd cp))) in
+  ssorted_f zf
+  /\ (rt = true -> rows (flat_map (fun it => kuses K_RD la (it_pre it)) (fst res))
+                   = expect_at L false K_RD 0 zes zf pt e)
+  /\ (wt = true -> rows (flat_map (fun it => suses K_WR la (it_post it)) (fst res))
+                   = expect_at L false K_WR 0 zes zf pt e).
+Proof.
+  intros L e els zes pt r la lb rt wt bt zl ip body ls oe isp Hpop Hels Hinc Hpre Hs Happ st res zf rows.
+  assert (Hc : map elc els = map fst (ref_elems L e)).
+  { rewrite <- Hels, map_map. reflexivity. }
+  destruct (pop_loop_noins_init r la lb rt wt bt zl (negb (l_zufmt L)) ip body els zes oe isp ls Hs) as (H1 & H2 & H3).
+  - destruct els as [|el els']; [exact I|]. cbn [map] in Hc. rewrite <- Hc in Hinc. exact Hinc.
+  - intros Hcm. unfold appending in Happ. apply negb_true_iff in Hcm. rewrite Hcm in Happ. cbn [orb] in Happ.
+    destruct (last_coord zes) as [m|]; [|exact I]. destruct els as [|el els']; [exact I|].
+    rewrite <- Hels in Happ. cbn [map el_ce fst] in Happ. apply negb_true_iff in Happ. exact Happ.
+  - exact Hpre.
+  - fold st in H2, H3. fold res in H1, H2, H3. fold zf in H1, H2, H3.
+    split; [exact H1|]. split; intros Ht; subst.
+    + unfold rows. rewrite H2. unfold expect_at. rewrite Hpop.
+      change (K_RD =? K_ITER) with false. change (K_RD =? K_INT) with false.
+      change (K_RD =? K_POP) with false. change (K_RD =? K_RD) with true.
+      change (0 =? 0) with true. cbn [andb]. rewrite <- Hels, flat_map_map', map_flat_map'.
+      apply flat_map_ext_in. intros el _. unfold elc, el_ce. cbn [fst snd].
+      destruct (mem_fib (fst (snd el)) zes); reflexivity.
+    + unfold rows. rewrite H3. unfold expect_at. rewrite Hpop.
+      change (K_WR =? K_ITER) with false. change (K_WR =? K_INT) with false.
+      change (K_WR =? K_POP) with false. change (K_WR =? K_RD) with false. change (K_WR =? K_WR) with true.
+      change (0 =? 0) with true. cbn [andb]. rewrite <- Hels, flat_map_map', map_flat_map'.
+      apply flat_map_ext_in. intros el _. unfold elc, el_ce. cbn [fst snd].
+      destruct (mem_fib (fst (snd el)) zf); reflexivity.
+Qed.
+
+(* the instance for  z_i << x_i  (run_level's populate branch over a fiber) *)
+Corollary pop_fib_level_dest : forall tr u sh zu x e zes pt r la' lb' la lb rt wt bt zl ip (body : body_t) ls oe isp,
+  let L := {| l_pop := true; l_src := SFib x; l_ufmt := u; l_zufmt := zu; l_proj := None; l_shape := sh |} in
+  env_ok e -> ssorted_f zes -> appending L zes e = true ->
+  let els := fst (src_stream tr u sh r la' lb' (SFib x) e) in
+  let st := {| p_z := zes; p_apos := 0; p_ins := false; p_oldend := oe; p_toins := []; p_isp := isp |} in
+  let res := pop_loop r la lb rt wt bt zl (negb zu) ip body els 0 st ls in
+  let zf := p_z (fst (snd res)) in
+  let rows := map (fun cp : Z * Z => addr pt (fst cp) (Some (snd cp))) in
+  ssorted_f zf
+  /\ (rt = true -> rows (flat_map (fun it => kuses K_RD la (it_pre it)) (fst res))
+                   = expect_at L false K_RD 0 zes zf pt e)
+  /\ (wt = true -> rows (flat_map (fun it => suses K_WR la (it_post it)) (fst res))
+                   = expect_at L false K_WR 0 zes zf pt e).
+Proof.
+  intros tr u sh zu x e zes pt r la' lb' la lb rt wt bt zl ip body ls oe isp L He Hs Happ els.
+  apply (pop_level_dest_rows L e els zes pt r la lb rt wt bt zl ip body ls oe isp); auto.
+  - unfold els, src_stream, ref_elems, ref_off, pcoord, el_ce. cbn [fst snd L l_src l_proj l_ufmt l_shape].
+    rewrite !map_map. reflexivity.
+  - unfold ref_elems, pcoord. cbn [L l_src l_proj]. rewrite map_map. cbn [fst].
+    destruct (ref_off_ok L e x He) as [Hso _].
+    destruct (ref_off L e x) as [|[c0 t0] rest]; [exact I|]. destruct Hso as [Hg Hso].
+    cbn [map fst]. apply all_gt_inc; auto.
+  - unfold els, src_stream. cbn [fst]. apply Forall_forall. intros el Hin. apply in_map_iff in Hin.
+    destruct Hin as (ct & <- & _). reflexivity.
 Qed.
